@@ -1,5 +1,11 @@
 (* Conversions between OCaml values / s-expressions and the extracted Coq datatypes.
    Z, positive, nat stay the Coq inductive types (ExtrOcamlBasic only). Trusted glue. *)
+(* OCaml's own string/char modules, named before `open Model` (the extracted model may define `string`, `String`, ...) *)
+type ostring = string
+module OString = String
+module OChar = Char
+module OBuffer = Buffer
+module OList = List
 open Model
 
 let rec pos_of_int (n : int) : positive =
@@ -11,25 +17,25 @@ let rec nat_of_int n = if n <= 0 then O else S (nat_of_int (n - 1))
 let rec int_of_nat = function O -> 0 | S n -> 1 + int_of_nat n
 
 (* byte strings: Coq `list Z` <-> OCaml string *)
-let bytes_of_string (s : string) : z list = List.init (String.length s) (fun i -> z_of_int (Char.code s.[i]))
-let string_of_bytes (l : z list) : string =
-  let b = Buffer.create 64 in List.iter (fun c -> Buffer.add_char b (Char.chr ((int_of_z c) land 255))) l; Buffer.contents b
+let bytes_of_string (s : ostring) : z list = OList.init (OString.length s) (fun i -> z_of_int (OChar.code (OString.get s i)))
+let string_of_bytes (l : z list) : ostring =
+  let b = OBuffer.create 64 in OList.iter (fun c -> OBuffer.add_char b (OChar.chr ((int_of_z c) land 255))) l; OBuffer.contents b
 
 (* arbitrary-size decimal <-> Z through the model's own (unwrapped) decimal reader / itoa *)
-let z_of_dec (s : string) : z = Glue.z_of_dec (bytes_of_string s)
-let dec_of_z (x : z) : string = string_of_bytes (itoa x)
+let z_of_dec (s : ostring) : z = Glue.z_of_dec (bytes_of_string s)
+let dec_of_z (x : z) : ostring = string_of_bytes (itoa x)
 
-let hexdig = "0123456789abcdef"
-let hex_of_string s =
-  let b = Buffer.create (2 * String.length s + 1) in
-  Buffer.add_char b 'x';
-  String.iter (fun c -> let k = Char.code c in Buffer.add_char b hexdig.[k lsr 4]; Buffer.add_char b hexdig.[k land 15]) s;
-  Buffer.contents b
-let string_of_hex h =
-  if String.length h = 0 || h.[0] <> 'x' then failwith ("hex atom expected: " ^ h);
-  let n = (String.length h - 1) / 2 in
-  let v c = match c with '0'..'9' -> Char.code c - 48 | 'a'..'f' -> Char.code c - 87 | 'A'..'F' -> Char.code c - 55 | _ -> failwith "hex" in
-  String.init n (fun i -> Char.chr (16 * v h.[1 + 2*i] + v h.[2 + 2*i]))
+let hexdig : ostring = "0123456789abcdef"
+let hex_of_string (s : ostring) : ostring =
+  let b = OBuffer.create (2 * OString.length s + 1) in
+  OBuffer.add_char b 'x';
+  OString.iter (fun c -> let k = OChar.code c in OBuffer.add_char b (OString.get hexdig (k lsr 4)); OBuffer.add_char b (OString.get hexdig (k land 15))) s;
+  OBuffer.contents b
+let string_of_hex (h : ostring) : ostring =
+  if OString.length h = 0 || OString.get h 0 <> 'x' then failwith ("hex atom expected: " ^ h);
+  let n = (OString.length h - 1) / 2 in
+  let v c = match c with '0'..'9' -> OChar.code c - 48 | 'a'..'f' -> OChar.code c - 87 | 'A'..'F' -> OChar.code c - 55 | _ -> failwith "hex" in
+  OString.init n (fun i -> OChar.chr (16 * v (OString.get h (1 + 2*i)) + v (OString.get h (2 + 2*i))))
 
 let sx_bytes (l : z list) : Sx.t = Sx.A (hex_of_string (string_of_bytes l))
 let bytes_sx (x : Sx.t) : z list = bytes_of_string (string_of_hex (Sx.atom x))
@@ -39,8 +45,8 @@ let sx_int (n : int) : Sx.t = Sx.A (string_of_int n)
 let int_sx (x : Sx.t) : int = int_of_string (Sx.atom x)
 let sx_bool b = Sx.A (if b then "T" else "F")
 let bool_sx x = match Sx.atom x with "T" -> true | "F" -> false | a -> failwith ("bool: " ^ a)
-let sx_list f l = Sx.L (List.map f l)
-let list_sx f x = List.map f (Sx.list x)
+let sx_list f l = Sx.L (OList.map f l)
+let list_sx f x = OList.map f (Sx.list x)
 let sx_opt f = function None -> Sx.A "none" | Some v -> Sx.L [Sx.A "some"; f v]
 let opt_sx f = function Sx.A "none" -> None | Sx.L [Sx.A "some"; v] -> Some (f v) | _ -> failwith "opt"
 let sx_pair f g (a, b) = Sx.L [f a; g b]
